@@ -4,6 +4,7 @@
 package topologyaware
 
 import (
+	"fmt"
 	"sort"
 
 	libmem "github.com/containers/nri-plugins/pkg/resmgr/lib/memory"
@@ -114,6 +115,17 @@ func VerifSnapshot(b policyapi.Backend) *VerifSnap {
 	}
 	sort.Slice(s.Grants, func(i, j int) bool { return s.Grants[i].Container < s.Grants[j].Container })
 	return s
+}
+
+// VerifHidden renders state that influences later decisions but is not part of the
+// assignments: the package-level option pointer, default priority, cold-start switch and the
+// configuration the policy believes it runs with.
+func VerifHidden(b policyapi.Backend) string {
+	p, ok := b.(*policy)
+	if !ok {
+		return ""
+	}
+	return fmt.Sprintf("opt=%+v cfg=%+v defaultPrio=%v coldStartOff=%v reserveCnt=%d depth=%d nodeCnt=%d", *opt, *p.cfg, defaultPrio, coldStartOff, p.reserveCnt, p.depth, p.nodeCnt)
 }
 
 // VerifResetGlobals resets package-level state that survives an instance.
